@@ -68,6 +68,7 @@ def fixed_cases(tier):
     cases.append({"kind": "limit", "insts": [gen.benchmark_case("la21")], "limit": 0.02})
     cases.append({"kind": "limit", "insts": [gen.benchmark_case("ta01")], "limit": 0.2})
     cases.append({"kind": "limit", "insts": [gen.benchmark_case("ta41")], "limit": 0.0005})
+    cases.append({"kind": "limit_then_unlimited", "insts": [gen.benchmark_case("ta41"), gen.benchmark_case("ft06")], "limit": 1e-9})
     return cases
 
 
@@ -153,10 +154,27 @@ def check_case(case, ctx):
         return
     # half of the cases: a solver with a time limit far above what is needed
     generous = sum(len(r) for r in insts[0]["durations"]) % 2 == 0
+    if kind == "limit_then_unlimited":
+        # the documented public attribute is changed between two solves
+        solver = ORToolsSolver(max_time_in_seconds=case["limit"])
+        big_i = build_instance(insts[0])
+        try:
+            check_result(ctx, insts[0], big_i, solver.solve(big_i), "solve with a 1 ns limit")
+        except NoSolutionFoundError:
+            ctx.count("limit_no_solution")
+        solver.max_time_in_seconds = None
+        small_i = build_instance(insts[1])
+        res = solver.solve(small_i)  # no limit configured any more: must succeed
+        mk, status = check_result(ctx, insts[1], small_i, res, "solve after max_time_in_seconds was set back to None")
+        ctx.check(status == "optimal" and mk == 55, "limit-leaked", f"ft06 after removing the limit: {status} {mk}")
+        ctx.nontrivial = True
+        return
     shared = ORToolsSolver(max_time_in_seconds=60.0) if generous else ORToolsSolver()
     if generous:
         ctx.label("generous_time_limit")
     instance = sched = fresh = instance2 = None
+    keep_alive = len(insts) % 2 == 1  # a caller that collects the results
+    kept = []
     for k, inst in enumerate(insts):
         # a caller solving short-lived instances in a loop: nothing of the
         # previous iteration is kept alive (object ids may be reused)
@@ -165,6 +183,8 @@ def check_case(case, ctx):
         # allocation after the previous one is freed)
         jobs = build_jobs(inst)
         old_id = id(instance)
+        if keep_alive and sched is not None:
+            kept.append((insts[k - 1], instance, sched))
         del instance, sched, fresh, instance2
         fresh = instance2 = None
         instance = instance_from_jobs(inst, jobs)
@@ -212,6 +232,17 @@ def check_case(case, ctx):
                 ctx.check(mk >= meta["lower_bound"], "below-recorded-bound", f"{where}: {mk} < recorded lower bound {meta['lower_bound']}")
             if meta.get("optimum") is not None and status == "optimal":
                 ctx.check(mk == meta["optimum"], "recorded-optimum", f"{where}: optimal {mk} != recorded optimum {meta['optimum']}")
+        # results handed out earlier are not touched by later solves
+        for k0, (inst0, instance0, sched0) in enumerate(kept):
+            rows0 = fp.schedule_rows(sched0)
+            ctx.check(
+                sched0.metadata.get("makespan") == sched0.makespan() == feasible.makespan(rows0)
+                and not feasible.problems(inst0["durations"], inst0["machines"], rows0, partial=False)
+                and sched0.instance is instance0,
+                "earlier-result-changed",
+                f"after solve #{k} the schedule returned by solve #{k0} reports metadata "
+                f"{sched0.metadata.get('makespan')} / makespan {sched0.makespan()}",
+            )
         ctx.count("solves")
         ctx.label(*gen.inst_labels(inst))
         job_lb, mach_lb = lower_bounds(inst)
